@@ -2,7 +2,7 @@
 From Coq Require Import Lia.
 From ChitchatModel Require Import Base SMap Ids Bytes Params NodeState Stream DeltaWire Message Cluster
   FD Chitchat World Monitors SMap_lemmas NodeState_lemmas Cluster_lemmas Chitchat_lemmas Inv NodeInv
-  Truth NodeTruth Exact Catchup_lemmas Reach ReachExact CatchupReach GuardsGen GuardTie.
+  Truth NodeTruth Exact Catchup_lemmas Reach ReachExact CatchupReach GuardsGen GuardTie FD_lemmas Liveness_lemmas ReachFD FdKnown MemInv CatchupFD.
 
 Lemma set_many_newer_wins : forall kvs c evs k o,
   kget k (c_kvs c) = Some o ->
@@ -197,6 +197,33 @@ Proof.
   destruct Hl as (_ & Hk & _). rewrite Hk in *. exists v. auto.
 Qed.
 Print Assumptions C18_honest_catchups_keep_every_copy_integral_and_exact.
+
+(* ... and the invariants of the failure detector and of the removed-member memory (C12, C13, C16)
+   hold in all those states too: live and dead stay disjoint and sorted, the local node is in
+   neither; the detector holds no state (live, dead, sampling window) about a member the node holds
+   no copy of — a catch-up creates at most an empty window, for a member it has just installed —;
+   the memory has distinct keys and never lists a held member; the watch channel keeps its shape. *)
+Theorem C18_honest_catchups_keep_the_detector_invariants : forall zc,
+  (forall b c, zc b = Some c -> len c <= len b) -> forall g, creachable zc g ->
+  forall a n, node_at g a = Some n ->
+    fd_inv (nd_fd n) /\ fd_self_free n /\
+    (forall i, nm_get i (cs_nodes (nd_cs n)) = None ->
+       is_mem i (fd_live (nd_fd n)) = false /\ dm_get i (fd_dead (nd_fd n)) = None /\ wm_get i (fd_samples (nd_fd n)) = None) /\
+    (NoDup (map fst (cs_gcn (nd_cs n))) /\
+     forall i c, nm_get i (cs_nodes (nd_cs n)) = Some c -> last_heartbeat_if_deleted (nd_cs n) i = None) /\
+    watch_shape (nd_prev n) (nd_watch n).
+Proof.
+  intros zc zc_len g Hr a n Hn.
+  destruct (creachable_fd_all zc zc_len g Hr a n Hn) as [[Hf Hs] [_ Hk] Hm Hw].
+  split; [exact Hf|]. split; [exact Hs|]. split; [|split; [exact Hm|exact Hw]].
+  intros i Hnone.
+  assert (Hnm : ~ mentions (nd_fd n) i) by (intros Hx; apply (Hk i Hx); exact Hnone).
+  split; [|split].
+  - destruct (is_mem i (fd_live (nd_fd n))) eqn:E; [exfalso; apply Hnm; left; exact E|reflexivity].
+  - destruct (dm_get i (fd_dead (nd_fd n))) eqn:E; [exfalso; apply Hnm; right; left; rewrite E; discriminate|reflexivity].
+  - destruct (wm_get i (fd_samples (nd_fd n))) eqn:E; [exfalso; apply Hnm; right; right; rewrite E; discriminate|reflexivity].
+Qed.
+Print Assumptions C18_honest_catchups_keep_the_detector_invariants.
 
 (* what may be fed: any copy any node holds, at the moment it is fetched or at any later moment *)
 Theorem C18_fetched_states_stay_honest : forall zc,
